@@ -261,7 +261,9 @@ func (n *Node) call(st *Step, fn func()) {
 	s := n.s
 	st.Node, st.Inc, st.Seq, st.At = n.id, n.inc, s.seq, s.now
 	if st.Op != OpStart {
-		st.PreBI, st.PreV, st.PreDec = n.d.BlockIndex, n.d.ViewNumber, n.d.BlockSent()
+		// "decided" is the harness's own record (the application's ProcessBlock returned success
+		// since the last Start/Reset), not the library's flag
+		st.PreBI, st.PreV, st.PreDec = n.d.BlockIndex, n.d.ViewNumber, n.accepted
 	}
 	s.st.Calls++
 	// amnesia crash points: before the call, inside a broadcast, inside ProcessBlock
